@@ -78,5 +78,5 @@ package lang
 // order, each under its own ID.)
 //@ func (*jobs).List [C27 C19]
 //@   requires j != nil
-//@   loop 1 step (len(s) == len(old(s)) && (j.jobs[i] == nil || j.jobs[i].$lastObs)) || (len(s) == len(old(s))+1 && s[len(s)-1] != nil && s[len(s)-1].JobId == $sprintf1("%%%d", any(i+1)) && s[len(s)-1].Process == j.jobs[i] && j.jobs[i] != nil && !j.jobs[i].$lastObs)
+//@   loop 1 step (len(s) == len(old(s)) && (j.jobs[$idx] == nil || j.jobs[$idx].$lastObs)) || (len(s) == len(old(s))+1 && s[len(s)-1] != nil && s[len(s)-1].JobId == $sprintf1("%%%d", any($idx+1)) && s[len(s)-1].Process == j.jobs[$idx] && j.jobs[$idx] != nil && !j.jobs[$idx].$lastObs)
 //@   loop 1 step forall(k, 0, len(old(s)), s[k] == old(s)[k])
